@@ -111,3 +111,105 @@ def memcheck(run, script_lines, tag, timeout=3000):
     err = p.stderr.decode('utf-8', 'replace')
     blocks = re.findall(r'==\d+== (Invalid (?:read|write).*?|Conditional jump.*?|Use of uninitialised.*?|Invalid free.*?)\n((?:==\d+==.*\n){1,12})', err)
     return p.returncode, [(k, body[:1000]) for k, body in blocks]
+
+
+# ---------------------------------------------------------------------------------------------------------
+# stages used by the thorough tiers
+
+def _status(ev):
+    if ev is None:
+        return 'missing'
+    for k in ('panic', 'err', 'harness_error', 'ok'):
+        if k in ev:
+            return k
+    return 'other'
+
+
+def _miri_kind(report):
+    first = report.strip().splitlines()[0] if report.strip() else 'empty'
+    first = re.sub(r'alloc\d+', 'allocN', first)
+    first = re.sub(r'0x[0-9a-f]+', '0xN', first)
+    first = re.sub(r'\d+', 'N', first)
+    return first[:120].replace('"', "'")
+
+
+def miri_stage(run, cases, native_events, max_cases=24, shards=8, timeout=3000, what='ops', prefer=None, max_bytes=6000, settings=None):
+    """Re-executes a sample of the cases the native run already judged under Miri (stacked-borrows / UB /
+    leak interpreter): a report is a violation, the op outcomes must have the same status as natively."""
+    from concurrent.futures import ThreadPoolExecutor
+    # small cases first; among them those the caller prefers (e.g. histories that reach the unsafe blocks)
+    sized = [(len(json.dumps(c)), c) for c in cases]
+    small = [c for n, c in sorted(sized, key=lambda x: x[0]) if n <= max_bytes] or [c for n, c in sorted(sized, key=lambda x: x[0])[:max_cases]]
+    if prefer is not None:
+        small.sort(key=lambda c: -prefer(c))
+    pick = small[:max_cases]
+    if not pick:
+        return
+    shards = max(1, min(shards, len(pick)))
+    buckets = [[] for _ in range(shards)]
+    for i, c in enumerate(pick):
+        buckets[i % shards].append(c)
+
+    def one(args):
+        i, b = args
+        lines = ([dict(id='__settings', op='settings', **settings)] if settings else []) + [op for c in b for op in c]
+        return b, miri_exec(run, lines, 's%d' % i, timeout=timeout)
+    with ThreadPoolExecutor(max_workers=shards) as ex:
+        results = list(ex.map(one, enumerate(buckets)))
+    for b, (events, report) in results:
+        if report == 'timeout':
+            run.inconc('a Miri shard exceeded its wall-clock watchdog')
+            continue
+        if report and report.startswith('build-failed'):
+            run.inconc('Miri build of the executor failed: %s' % report[-300:])
+            continue
+        if report and report.startswith('rc='):
+            run.inconc('Miri run ended abnormally without a report: %s' % report[:300])
+            continue
+        if report and 'unsupported operation' in report:
+            run.count('miri_shards_stopped_at_an_unsupported_operation')
+            run.cov.setdefault('miri_unsupported', []).append(report[:200])
+        elif report:
+            run.violation('miri-report %s' % _miri_kind(report), 'Miri reported: %s' % report[:600], {'ops': [op for c in b for op in c][:40]}, observed=report)
+        for c in b:
+            for op in c:
+                e = events.get(op['id'])
+                if e is None:
+                    continue
+                run.count('miri_%s_executed' % what)
+                run.hist('miri_ops', op['op'])
+                n = native_events.get(op['id'])
+                if n is not None and _status(n) != _status(e) and _status(e) != 'harness_error':
+                    run.violation('miri-outcome-differs op=%s native=%s miri=%s' % (op['op'], _status(n), _status(e)),
+                                  'the same operation ends differently under the interpreter', {'ops': c}, observed=e, expected=n)
+    if not run.cov.get('miri_%s_executed' % what):
+        run.inconc('the Miri stage executed no operation')
+
+
+def memcheck_stage(run, cases, native_events, max_cases=40, shards=8, timeout=3000, settings=None):
+    """valgrind memcheck over the native executor (covers the C codecs Miri cannot enter)"""
+    from concurrent.futures import ThreadPoolExecutor
+    pick = sorted(cases, key=lambda c: len(json.dumps(c)))[:max_cases]
+    if not pick:
+        return
+    shards = max(1, min(shards, len(pick)))
+    buckets = [[] for _ in range(shards)]
+    for i, c in enumerate(pick):
+        buckets[i % shards].append(c)
+
+    def one(args):
+        i, b = args
+        return b, memcheck(run, ([dict(id='__settings', op='settings', **settings)] if settings else []) + [op for c in b for op in c], 's%d' % i, timeout=timeout)
+    with ThreadPoolExecutor(max_workers=shards) as ex:
+        results = list(ex.map(one, enumerate(buckets)))
+    for b, (rc, blocks) in results:
+        if blocks == 'timeout':
+            run.inconc('a memcheck shard exceeded its wall-clock watchdog')
+            continue
+        run.count('memcheck_ops_executed', sum(len(c) for c in b))
+        for kind, body in blocks:
+            frames = re.findall(r'(?:at|by) 0x[0-9A-F]+: (\S+)', body)
+            top = next((f for f in frames if 'avmon' not in f), frames[0] if frames else '?')
+            run.violation('memcheck-report %s at=%s' % (kind.split(' of ')[0][:40], top[:80]), 'valgrind memcheck: %s' % kind, {'ops': [op for c in b for op in c][:40]}, observed=body)
+        if rc not in (0, 77) and not blocks:
+            run.inconc('memcheck run ended with rc=%s' % rc)
